@@ -17,7 +17,7 @@ ASSUMPTIONS = [
     "case-insensitive cases use only characters on which str.upper, str.lower, str.casefold and re.IGNORECASE agree",
 ]
 GATES = ["mon.C07.get", "mon.C07.roundtrip_abs", "mon.C07.roundtrip_rel", "C07.err.ResolverError", "C07.err.RootResolverError", "C07.err.ChildResolverError",
-         "C07.relaxed_miss_first", "C07.relaxed_miss_middle", "C07.relaxed_miss_last", "C07.ignorecase_hit", "C07.sep_other", "C07.wildcard_chars_in_names", "C07.after_mutation", "C07.option_attributes_reassigned", "C07.tree_with_symlinks", "C07.tuple_valued_pathattr", "C07.falsy_nodes", "C07.int_valued_pathattr"]
+         "C07.relaxed_miss_first", "C07.relaxed_miss_middle", "C07.relaxed_miss_last", "C07.ignorecase_hit", "C07.sep_other", "C07.wildcard_chars_in_names", "C07.after_mutation", "C07.option_attributes_reassigned", "C07.tree_with_symlinks", "C07.tuple_valued_pathattr", "C07.falsy_nodes", "C07.int_valued_pathattr", "C07.node_without_path_attribute"]
 
 _CLS = {}
 KINDS = ("Node", "AnyNode", "NM", "LM", "FalsyNode", "FalsyAny", "ListNode")
@@ -36,12 +36,24 @@ def node_class(kind, sep):
     return _CLS[key]
 
 
+class Absent:
+    """Marks a node that does not have the path attribute at all; its string form is a component no query contains."""
+
+    def __init__(self, i):
+        self.i = i
+
+    def __str__(self):
+        return "\x00no-path-attribute-%d\x00" % self.i
+
+    __repr__ = __str__
+
+
 def build(par, names, kind="Node", sep="/", pathattr="name"):
     cls = node_class(kind, sep)
     nodes = []
     for i in range(len(par)):
         if kind in ("AnyNode", "FalsyAny"):
-            nodes.append(cls(**{pathattr: names[i]}))
+            nodes.append(cls() if isinstance(names[i], Absent) else cls(**{pathattr: names[i]}))
         else:
             nodes.append(cls(names[i]))
     for i, p in enumerate(par):
@@ -214,22 +226,35 @@ def run(ctx):
             # non-string path attributes (tuples): compared as str(value); they also appear in error messages
             names = [("t%d" % i,) if i % 2 else ("t", i) for i in range(n)]
             ctx.count("C07.tuple_valued_pathattr")
+        absent = []
+        if pathattr == "id" and n >= 3 and (r // 12) % 4 == 2:
+            # a grouping node without the path attribute (a leaf, never the root): it is never matched, and lookups
+            # that fail next to it still fail cleanly
+            leaves = [i for i in range(1, n) if not ch[i]]
+            absent = leaves[-1:]
+            names = list(names)
+            for i in absent:
+                names[i] = Absent(i)
+            ctx.count("C07.node_without_path_attribute")
         nodes = build(par, names, kind, sep, pathattr)
         idmap = {id(o): i for i, o in enumerate(nodes)}
         snames = [str(x) for x in names]
-        case = {"kind": kind, "sep": sep, "par": list(par), "names": names, "pathattr": pathattr}
-        roundtrips(ctx, lib, nodes, idmap, par, ch, names, sep, ic, case, pathattr)
-        comps_pool = snames + [x.swapcase() for x in snames] + ["..", "..", ".", "", "nope", "zz", "50%", "%s", "%(x)s"]
+        case = {"kind": kind, "sep": sep, "par": list(par), "names": [None if isinstance(x, Absent) else x for x in names], "pathattr": pathattr, "absent": absent}
+        pairs = None if not absent else [(a, b) for a in range(n) for b in range(n) if b not in absent]
+        roundtrips(ctx, lib, nodes, idmap, par, ch, names, sep, ic, case, pathattr, pairs=pairs)
+        qnames = [x for i, x in enumerate(snames) if i not in absent]  # no query spells the marker of an attribute-less node
+        present = [i for i in range(n) if i not in absent]
+        comps_pool = qnames + [x.swapcase() for x in qnames] + ["..", "..", ".", "", "nope", "zz", "50%", "%s", "%(x)s"]
         if r % 3 != 0:
             # wildcard characters are ordinary characters for get
-            comps_pool += ["*", "?", "a*", "s*"] + [x[:-1] + "?" for x in snames[:4]] + [x[:1] + "*" for x in snames[:4]]
+            comps_pool += ["*", "?", "a*", "s*"] + [x[:-1] + "?" for x in qnames[:4]] + [x[:1] + "*" for x in qnames[:4]]
         for q in range(30):
             ln = rng.randint(0, 5)
             comps = [rng.choice(comps_pool) for _ in range(ln)]
             p = sep.join(comps)
             form = rng.random()
             if form < 0.25:
-                p = RR.abs_path(par, snames, rng.randrange(n), sep) + (sep + p if p else "")
+                p = RR.abs_path(par, snames, rng.choice(present), sep) + (sep + p if p else "")
             elif form < 0.35:
                 p = sep + p
             elif form < 0.4:
@@ -377,7 +402,9 @@ def _replay_static(ctx, wit):
 
     lib = getlib()
     c = wit["case"]
-    par, names = c["par"], c["names"]
+    par, names = c["par"], list(c["names"])
+    for i in c.get("absent", []):
+        names[i] = Absent(i)
     nodes = build(par, names, c["kind"], c["sep"], c.get("pathattr", "name"))
     idmap = {id(o): i for i, o in enumerate(nodes)}
     ch = gen.children_of(par)
